@@ -796,6 +796,8 @@ class Interp:
                 return ("objmeth", base[1], attr)
             return ("sym", f"{base[1]}.{attr}")
         if k == "mod":
+            if attr in ("inf", "infty", "Inf", "PINF") and base[1].split(".")[-1] in ("math", "numpy", "np", "jnp") or (base[1] + "." + attr) in ("jax.numpy.inf",):
+                return INF  # math.inf / np.inf / jnp.inf are float("inf")
             return ("mod", base[1] + "." + attr)
         if k == "record":
             for n_, v_ in base[2]:
@@ -1081,6 +1083,22 @@ class Interp:
         h = self.prims.get(name)
         if h is not None:
             return h(self, args, kw, node)
+        if name in ("math.prod", "np.prod") and len(args) == 1 and not kw:
+            # the product of a tuple of sizes (x.shape[:3]) is the product of its entries
+            a_ = args[0]
+            items_ = None
+            if a_[0] == "tuple":
+                items_ = list(a_[1])
+            elif a_[0] == "app" and a_[1] == "shape_slice" and len(a_[2]) >= 3:
+                lo_, hi_ = a_[2][1], a_[2][2]
+                st_ = a_[2][3] if len(a_[2]) > 3 else NONE
+                if (lo_ == NONE or (is_num(lo_) and lo_[1] >= 0)) and is_num(hi_) and hi_[1] >= 0 and st_ == NONE:
+                    items_ = [self.index(("shape", a_[2][0]), K(j_)) for j_ in range(0 if lo_ == NONE else int(lo_[1]), int(hi_[1]))]
+            if items_ is not None and all(not self.axes_of(x_) for x_ in items_):
+                r_ = ONE
+                for x_ in items_:
+                    r_ = T_mul(r_, x_)
+                return r_
         if name == "lax.dynamic_index_in_dim" and len(args) >= 2:
             # row / column i of a matrix: the dynamic_slice of extent 1 along that axis over the whole of the other one
             ax_ = kw.get("axis", args[2] if len(args) > 2 else ZERO)
@@ -1832,6 +1850,9 @@ def _dtype_visible(I, d):
 
 def _p_zeros(I, args, kw, node):
     d = kw.get("dtype", args[1] if len(args) > 1 else None)
+    # zeros(x.shape, dtype=x.dtype) is zeros_like(x)
+    if d is not None and d[0] == "app" and d[1] == "dtype" and len(d[2]) == 1 and args and args[0] == ("shape", d[2][0]):
+        return _p_zeros_like(I, [d[2][0]], {}, node)
     if d is not None and _dtype_visible(I, d):
         return ("app", "zeros", (args[0], ("kw", "dtype", d)))
     return ("app", "zeros", (args[0],))
